@@ -151,4 +151,158 @@ theorem sliderTailOk_of_upper (A d v : Float) (n : Int) (hA : InLimit A) (hn1 : 
 
 end One
 
+/-! ## 3. decoded maps -/
+
+section Maps
+variable [Trig Float32]
+
+/-- `SliderTailUpper` of every slider of the map, for the length the curve code returns — the hypothesis of
+`sliderTimes_upper_statement`. -/
+def SliderTailUpperAll (m : Beatmap Float Float32) : Prop :=
+  ∀ h ∈ m.hitObjects, ∀ s, h.kind = .slider s → ∀ dist, curveDist s = .ok dist →
+    SliderTailUpper h.startTime ((Scalar.ofInt (s.repeatCount + 1) : Float) * dist / s.velocity) (s.repeatCount + 1)
+
+theorem sliderTailUpperAll_of_inLimit {m : Beatmap Float Float32} (h : SliderTailInLimit m) : SliderTailUpperAll m :=
+  fun x hx s hk d hd => (h x hx s hk d hd).upper
+
+/-- for a decoded map whose curve lengths are not negative numbers (`C01.DistOk`: the `clamp` assertion of
+`SliderEventsIter::new` holds), the upper bounds give `SliderTailInLimit`: start within the limit (`C14.decoded_stored`),
+`0 ≤ repeat_count < 2³¹ − 1` (`decoded_objOk`), velocity positive and finite (`C01.decoded_velocity_range_float`). -/
+theorem sliderTailInLimit_of_upper (bs : List UInt8) (st : BeatmapState Float Float32) (m : Beatmap Float Float32)
+    (h1 : decodeBytes beatmapDecoder bs = .ok st) (h2 : st.finish = .ok m) (hd : C01.DistOk m.hitObjects)
+    (hu : SliderTailUpperAll m) : SliderTailInLimit m := by
+  intro h hh s hk dist hdist
+  have hstart := (C14.decoded_stored bs st m h1 h2 h hh).1
+  have hok := (decoded_objOk bs st m h1 h2 h hh).kind
+  rw [hk] at hok
+  obtain ⟨_, ⟨hr0, hr1⟩, _⟩ := hok
+  have hv := C01.decoded_velocity_range_float bs st m h1 h2 h hh s hk
+  have hnn : NotNeg dist := (C01.distOk_iff_not_negative m.hitObjects).mp hd h hh s hk dist hdist
+  exact sliderTailOk_of_upper _ dist _ _ hstart (by omega) (by omega) hnn hv.x_pos (hu h hh s hk dist hdist)
+
+/-- **sliderTimes_upper_float_partial** — `sliderTimes_upper_statement` under the additional hypothesis
+`C01.DistOk m.hitObjects` (no computed curve length is a negative number). What is missing for the full statement is exactly
+`C01.decoded_dist_nonneg_statement Float Float32` — the osu!-path-mode Catmull sliders (`sliderTimes_upper_statement_of_dist`). -/
+theorem sliderTimes_upper_float_partial (bs : List UInt8) (st : BeatmapState Float Float32) (m : Beatmap Float Float32)
+    (h1 : decodeBytes beatmapDecoder bs = .ok st) (h2 : st.finish = .ok m) (hd : C01.DistOk m.hitObjects)
+    (hu : SliderTailUpperAll m) : SliderTimesInLimit m :=
+  sliderTimes_osu_catch_float bs st m h1 h2 (sliderTailInLimit_of_upper bs st m h1 h2 hd hu)
+
+/-- … under `C01.CatmullSurplusOk` (a hypothesis about the osu!-path-mode Catmull sliders only). -/
+theorem sliderTimes_upper_float_catmull_partial (bs : List UInt8) (st : BeatmapState Float Float32)
+    (m : Beatmap Float Float32) (h1 : decodeBytes beatmapDecoder bs = .ok st) (h2 : st.finish = .ok m)
+    (hc : C01.CatmullSurplusOk m) (hu : SliderTailUpperAll m) : SliderTimesInLimit m :=
+  sliderTimes_upper_float_partial bs st m h1 h2 (C01.decoded_dist_nonneg_float_partial bs st m h1 h2 hc) hu
+
+/-- … **unconditionally for maps without an osu!-path-mode Catmull slider**. -/
+theorem sliderTimes_upper_float_no_catmull (bs : List UInt8) (st : BeatmapState Float Float32)
+    (m : Beatmap Float Float32) (h1 : decodeBytes beatmapDecoder bs = .ok st) (h2 : st.finish = .ok m)
+    (hno : ∀ h ∈ m.hitObjects, ∀ s, h.kind = .slider s →
+      s.path.mode ≠ GameMode.osu ∨ NoCatmull s.path.controlPoints)
+    (hu : SliderTailUpperAll m) : SliderTimesInLimit m :=
+  sliderTimes_upper_float_catmull_partial bs st m h1 h2 (C01.catmullSurplusOk_of_none m hno) hu
+
+/-- **the open statement is reduced to the open statement of C01** (`C01.decoded_dist_nonneg_statement Float Float32`: every decoded
+map satisfies `DistOk`, open for osu!-path-mode Catmull sliders only). -/
+theorem sliderTimes_upper_statement_of_dist (h : C01.decoded_dist_nonneg_statement Float Float32) :
+    sliderTimes_upper_statement :=
+  fun bs st m h1 h2 hu => sliderTimes_upper_float_partial bs st m h1 h2 (h bs st m h1 h2) hu
+
+/-- **the checkable condition on one decoded object, upper bounds alone**: like `ObjEndOk`, with `SliderTailUpper` for a
+slider (end within the limit; tail and span ends `≤ limit` — no sign clause, no finiteness clause). -/
+def ObjEndUpper (h : HitObject Float Float32) : Prop :=
+  match h.kind with
+  | .circle _ => True
+  | .spinner sp => EndOk h.startTime sp.duration
+  | .hold ho => EndOk h.startTime ho.duration
+  | .slider s => ∀ dist, curveDist s = .ok dist →
+      SliderTailUpper h.startTime ((Scalar.ofInt (s.repeatCount + 1) : Float) * dist / s.velocity) (s.repeatCount + 1)
+
+def ObjEndsUpper (m : Beatmap Float Float32) : Prop := ∀ h ∈ m.hitObjects, ObjEndUpper h
+
+theorem ObjEndOk.upper {h : HitObject Float Float32} (he : ObjEndOk h) : ObjEndUpper h := by
+  unfold ObjEndOk at he
+  unfold ObjEndUpper
+  cases hk : h.kind with
+  | circle c => trivial
+  | spinner sp => rw [hk] at he; exact he
+  | hold ho => rw [hk] at he; exact he
+  | slider s => rw [hk] at he; exact fun d hd => (he d hd).upper
+
+theorem objEndsUpper_of_inLimit {m : Beatmap Float Float32} (h : ObjEndsInLimit m) : ObjEndsUpper m :=
+  fun x hx => (h x hx).upper
+
+theorem sliderTailUpper_of_objEnds {m : Beatmap Float Float32} (he : ObjEndsUpper m) : SliderTailUpperAll m := by
+  intro h hh s hk
+  have := he h hh
+  unfold ObjEndUpper at this
+  rw [hk] at this
+  exact this
+
+/-- for decoded maps with `DistOk` the two conditions coincide. -/
+theorem objEndsInLimit_of_upper (bs : List UInt8) (st : BeatmapState Float Float32) (m : Beatmap Float Float32)
+    (h1 : decodeBytes beatmapDecoder bs = .ok st) (h2 : st.finish = .ok m) (hd : C01.DistOk m.hitObjects)
+    (he : ObjEndsUpper m) : ObjEndsInLimit m := by
+  intro h hh
+  have hu := he h hh
+  unfold ObjEndUpper at hu
+  unfold ObjEndOk
+  cases hk : h.kind with
+  | circle c => trivial
+  | spinner sp => rw [hk] at hu; exact hu
+  | hold ho => rw [hk] at hu; exact hu
+  | slider s =>
+    exact sliderTailInLimit_of_upper bs st m h1 h2 hd (sliderTailUpper_of_objEnds he) h hh s hk
+
+theorem objEnds_iff_upper (bs : List UInt8) (st : BeatmapState Float Float32) (m : Beatmap Float Float32)
+    (h1 : decodeBytes beatmapDecoder bs = .ok st) (h2 : st.finish = .ok m) (hd : C01.DistOk m.hitObjects) :
+    ObjEndsInLimit m ↔ ObjEndsUpper m :=
+  ⟨objEndsUpper_of_inLimit, objEndsInLimit_of_upper bs st m h1 h2 hd⟩
+
+/-- **collectedTimes_upper_float_partial** — any mode, no `EndTimeLaws`: for a decoded `Beatmap<f64/f32>` with `DistOk`, every
+collected time is within the parse limit as soon as no object's computed end time (sliders: end, tail, span ends) EXCEEDS the
+limit (and the slider end `A + dur` is not below `−limit`). -/
+theorem collectedTimes_upper_float_partial (bs : List UInt8) (st : BeatmapState Float Float32)
+    (m : Beatmap Float Float32) (h1 : decodeBytes beatmapDecoder bs = .ok st) (h2 : st.finish = .ok m)
+    (hd : C01.DistOk m.hitObjects) (he : ObjEndsUpper m) : CollectedTimesInLimit m :=
+  collectedTimes_all_modes_float bs st m h1 h2 (objEndsInLimit_of_upper bs st m h1 h2 hd he)
+
+theorem decoded_repTimingMap_ieee_upper_partial (bs : List UInt8) (st : BeatmapState Float Float32)
+    (m : Beatmap Float Float32) (h1 : decodeBytes beatmapDecoder bs = .ok st) (h2 : st.finish = .ok m)
+    (hd : C01.DistOk m.hitObjects) (he : ObjEndsUpper m) : RepTimingMap IeeeRep64 m :=
+  decoded_repTimingMap_ieee_ends bs st m h1 h2 (objEndsInLimit_of_upper bs st m h1 h2 hd he)
+
+/-- **timing_lines_accepted_decoded_ieee_upper_partial** — C04 for the `[TimingPoints]` block on the IEEE instances, all
+modes, with the upper bounds alone: decode any bytes to `m`; if no computed curve length is a negative number (`DistOk`; a
+theorem under `C01.CatmullSurplusOk`, unconditional without osu!-path-mode Catmull sliders) and no object's computed end time
+(sliders: end, tail, span ends) exceeds the limit, every line of the block `encode_timing_points` writes is accepted by
+`parse_timing_points` in any decoder state and applied as exactly the values written. -/
+theorem timing_lines_accepted_decoded_ieee_upper_partial (bs : List UInt8)
+    (st : BeatmapState Float Float32) (m : Beatmap Float Float32) (h1 : decodeBytes beatmapDecoder bs = .ok st)
+    (h2 : st.finish = .ok m) (hd : C01.DistOk m.hitObjects) (he : ObjEndsUpper m) (t : Str)
+    (h : encodeTimingPoints m = .ok t) :
+    ∃ cp, collectSamples m = .ok cp ∧ t = unlines (str "[TimingPoints]" :: (mapEntries m cp).map Entry.line) ∧
+      (∀ e ∈ mapEntries m cp, ∀ st : TimingPointsState Float Float32,
+        parseTimingPoints st (trimEnd e.line) = (.ok (), applyTpLine st (e.read st.general.defaultSampleBank))) ∧
+      ∀ st : TimingPointsState Float Float32,
+        Accepts (fun s l => ((parseTimingPoints s l).2, (parseTimingPoints s l).1.isOk)) st
+          (((mapEntries m cp).map Entry.line).map trimEnd) :=
+  timing_lines_accepted_decoded_ieee_ends bs st m h1 h2 (objEndsInLimit_of_upper bs st m h1 h2 hd he) t h
+
+/-- the same under `C01.CatmullSurplusOk`. -/
+theorem timing_lines_accepted_decoded_ieee_upper_catmull_partial (bs : List UInt8)
+    (st : BeatmapState Float Float32) (m : Beatmap Float Float32) (h1 : decodeBytes beatmapDecoder bs = .ok st)
+    (h2 : st.finish = .ok m) (hc : C01.CatmullSurplusOk m) (he : ObjEndsUpper m) (t : Str)
+    (h : encodeTimingPoints m = .ok t) :
+    ∃ cp, collectSamples m = .ok cp ∧ t = unlines (str "[TimingPoints]" :: (mapEntries m cp).map Entry.line) ∧
+      (∀ e ∈ mapEntries m cp, ∀ st : TimingPointsState Float Float32,
+        parseTimingPoints st (trimEnd e.line) = (.ok (), applyTpLine st (e.read st.general.defaultSampleBank))) ∧
+      ∀ st : TimingPointsState Float Float32,
+        Accepts (fun s l => ((parseTimingPoints s l).2, (parseTimingPoints s l).1.isOk)) st
+          (((mapEntries m cp).map Entry.line).map trimEnd) :=
+  timing_lines_accepted_decoded_ieee_upper_partial bs st m h1 h2
+    (C01.decoded_dist_nonneg_float_partial bs st m h1 h2 hc) he t h
+
+end Maps
+
 end Rosu.C04
